@@ -83,6 +83,35 @@ Proof.
   destruct r2; cbn [fst]; auto.
 Qed.
 
+(** the number of produced messages travels through chains of simple middlewares unchanged *)
+Lemma len_exit : forall mws mt o, length (outs_of (snd (exit_all mws mt o))) = length (outs_of o).
+Proof. intros. rewrite outs_exit. destruct (has_corr mws); auto. apply map_length. Qed.
+Lemma outs_effo : forall mws o, outs_of (effo mws o) = outs_of o.
+Proof.
+  induction mws as [|m mws IH]; intros o; simpl; auto. rewrite <- (IH o).
+  destruct m; simpl; auto; destruct (effo mws o); simpl; auto. destruct (in_texts _ _); reflexivity.
+Qed.
+Definition lsim (G G' : handler) : Prop :=
+  forall w w', R2 w w' -> length (outs_of (snd (G w))) = length (outs_of (snd (G' w'))).
+Lemma lsim_inner : forall post s, forallb is_simple post = true ->
+  lsim (stack repaired post (scripted s)) (scripted (map_res (effo post) s)).
+Proof.
+  intros post s Hq w w' (Hc & _ & _).
+  pose proof (stack_char post Hq (scripted s) w) as CH. cbv zeta in CH. destruct CH as (C1 & _).
+  rewrite C1, len_exit, scripted_map_res. simpl. rewrite outs_effo, Hc. reflexivity.
+Qed.
+Lemma x_lsim : forall x G G', sim2 G G' -> lsim G G' -> lsim (x_sem x G) (x_sem x G').
+Proof.
+  intros x G G' HG HL w w' HR. destruct x as [|[|]|[|]]; simpl; auto.
+  destruct (HG w w' HR) as [HR1 K1]. pose proof (HL w w' HR) as L1.
+  destruct (G w) as [w1 r1]. destruct (G' w') as [w1' r1']. simpl in *.
+  destruct r1, r1'; simpl in K1; try discriminate; simpl; auto.
+  destruct (HG w1 w1' HR1) as [HR2 K2]. pose proof (HL w1 w1' HR1) as L2.
+  destruct (G w1) as [w2 r2]. destruct (G' w1') as [w2' r2']. simpl in *.
+  destruct r2, r2'; simpl in K2; try discriminate; simpl; auto.
+  simpl in *. rewrite !app_length. lia.
+Qed.
+
 (** ** [pre (X (post h))] against X alone around the handler carrying post's effects *)
 Lemma x_middle : forall pre x post s w,
   forallb is_simple pre = true -> forallb is_simple post = true ->
@@ -91,7 +120,8 @@ Lemma x_middle : forall pre x post s w,
   w_calls (fst Y) = w_calls (fst B)
   /\ m_base_done (w_msg (fst Y)) = m_base_done (w_msg (fst B))
   /\ shapes (w_trace (fst Y)) = shapes (w_trace (fst B))
-  /\ rkind (snd Y) = eff pre (rkind (snd B)).
+  /\ rkind (snd Y) = eff pre (rkind (snd B))
+  /\ length (outs_of (snd Y)) = length (outs_of (snd B)).
 Proof.
   intros pre x post s w Hp Hq. cbv zeta. unfold xstack.
   set (G := x_sem x (stack repaired post (scripted s))).
@@ -99,9 +129,10 @@ Proof.
   set (we := set_msg w (entry_msg pre (w_msg w))) in *.
   assert (HR: R2 we w) by (unfold R2, we; simpl; rewrite entry_base; auto).
   destruct (x_sim2 x _ _ (sim2_inner post s Hq) we w HR) as [(A & B & T) K]. fold G in A, B, T, K.
+  pose proof (x_lsim x _ _ (sim2_inner post s Hq) (lsim_inner post s Hq) we w HR) as L. fold G in L.
   destruct (stack repaired pre G w) as [w1 r]. simpl in CH.
   destruct CH as (C1 & C2 & C3 & C4 & C5 & C6). simpl.
-  rewrite C5, C3, C6, C1, rkind_exit, K. auto.
+  rewrite C5, C3, C6, C1, rkind_exit, len_exit, K. auto.
 Qed.
 
 Theorem x_chain_result : forall pre x post s w,
@@ -110,7 +141,7 @@ Theorem x_chain_result : forall pre x post s w,
   /\ rkind (snd (xstack repaired pre x post s w)) = eff pre (rkind (snd (x_sem x (scripted (map_res (effo post) s)) w)))
   /\ m_ctx (w_msg (fst (xstack repaired pre x post s w))) = m_ctx (w_msg w).
 Proof.
-  intros pre x post s w Hp Hq. destruct (x_middle pre x post s w Hp Hq) as (A & _ & _ & K). repeat split; auto.
+  intros pre x post s w Hp Hq. destruct (x_middle pre x post s w Hp Hq) as (A & _ & _ & K & _). repeat split; auto.
   unfold xstack. apply (stack_ctx pre). apply x_ctx. apply stack_ctx. apply scripted_ctx.
 Qed.
 
@@ -122,7 +153,7 @@ Theorem x_accepted : forall pre x post s w0,
 Proof.
   intros pre x post s w0 Hp Hq. unfold observe, x_accept, clauses_x, bare_x.
   set (w := W (w_msg w0) (w_calls w0) []).
-  destruct (x_middle pre x post s w Hp Hq) as (A & B & T & K).
+  destruct (x_middle pre x post s w Hp Hq) as (A & B & T & K & L).
   assert (CX: m_ctx (w_msg (fst (xstack repaired pre x post s w))) = m_ctx (w_msg w)).
   { unfold xstack. apply (stack_ctx pre). apply x_ctx. apply stack_ctx. apply scripted_ctx. }
   assert (CD: m_base_dl (w_msg (fst (xstack repaired pre x post s w))) = m_base_dl (w_msg w)).
@@ -135,7 +166,7 @@ Proof.
   simpl in *. unfold all_true. cbn [forallb].
   rewrite ncalls_shapes, T, <- ncalls_shapes.
   assert (E0: Nat.eqb (ncalls (w_trace wb)) (w_calls wb - w_calls w0) = true) by (apply Nat.eqb_eq; lia).
-  rewrite E0, indices_shapes, T, <- indices_shapes, N2, K, K_eqb_refl.
+  rewrite E0, indices_shapes, T, <- indices_shapes, N2, K, K_eqb_refl, L, Nat.eqb_refl.
   unfold view, ctx_done. simpl. rewrite CX, CD, B, CB.
   rewrite !Bool.eqb_reflx, optZ_eqb_refl. reflexivity.
 Qed.
